@@ -10,6 +10,8 @@ XCDR = {"C09", "C10", "C11", "C12", "C39"}
 DISC = {"C07", "C13"}
 ENGINE = {}
 for p in SIM: ENGINE[p] = "sim"
+for p in ("C28", "C35", "C36", "C37"): ENGINE[p] = "sim_entity"
+for p in ("C30", "C31", "C32", "C33"): ENGINE[p] = "sim_status"
 for p in CODEC: ENGINE[p] = "codec"
 for p in XCDR: ENGINE[p] = "xcdr"
 for p in DISC: ENGINE[p] = "disc"
